@@ -92,3 +92,21 @@ claim("C17", "exploration", "exhaustive enumeration of a contact lattice and cor
       "relations, and corpus structures (as is, compressed, jittered), each under all 32 option combinations: the clash list equals the definition as a set, "
       "each pair once; clashfinder.main's printed maxima equal the maxima over the listed clashes and the CSV lists the same clashes.",
       "Radii read by name from module constants; nucleotide classification taken from Residue3D.is_nucleotide; absent occupancy judged only under ignore-occupancy.", "DESIGN.md 3/C17")
+
+claim("C03", "exploration", "exhaustive enumeration of placement lattices and corpus variant families on the real annotator, plus exhaustive/deviation-bounded exploration of KD-tree pair orders through a module seam, against an O(n^2) reference model",
+      "On every structure of the two-nucleotide lattice (15.5k quick / ~600k thorough), the three-nucleotide competition family, every corpus variant "
+      "(residue/atom deletions, jitter fields, cube rotations) and under every explored processing order of the hydrogen-bond candidate pairs: reported pairs "
+      "are supported by >= 2 distinct contacts on their edges with the right cis/trans letter, no edge is used twice, and every pair demanded by the definition is reported or blocked by a taken edge.",
+      "Continuous geometry is covered only on the stated lattices/families; margins below 1e-6 are undecided; reference tables are the harness's own copies.", "DESIGN.md 3/C03, 5.1")
+
+claim("C04", "exploration", "exhaustive enumeration of a stacking placement lattice and corpus variant families on the real annotator against a two-sided geometric reference",
+      "On every structure of the stacking lattice (62k quick / ~400k thorough; rises bracket 6 A, tilts bracket 35 degrees, offsets bracket 45 degrees), the coplanar "
+      "pair lattice and every corpus variant: the reported stackings lie between the directed and the undirected reading of the definition, carry the "
+      "right label group, appear once and list the lower residue first.",
+      "Two-sided oracle because the property leaves the vector direction open; up/down choice within a label group not checked.", "DESIGN.md 3/C04, 5.1")
+
+claim("C11", "exploration", "invariant checking on every annotation produced by the exhaustive lattice/corpus/schedule explorations of C03 and C04, all models of multi-model files, and the CSV/JSON writers",
+      "On every annotation of the pair lattice, stacking lattice, three-nucleotide family, corpus variants, all models of the NMR files and every explored pair order: "
+      "no repeats, no self-interactions, only residues of the analysed model, orientation and sorting, Saenger exactly per the 28-class table, BPh/BR soundness, "
+      "class implied by the contacts, one class per ordered residue pair and kind; CSV and JSON list the same interactions.",
+      "Saenger asserted for upper-case A/C/G/U/T only; BPh/BR class check is liberal.", "DESIGN.md 3/C11, 5.1")
